@@ -10,23 +10,41 @@ for the third: `tag = "a"; g = lambda: tag`.
 -/
 namespace CM.Scope
 
-theorem assigns_cleanGo (m : Mode) (D : List String) :
-    ∀ t : Body, (t.cleanGo m D).assigns = t.assigns.filter (fun n => !decide (n ∈ D))
-  | .nil => by simp [Body.cleanGo, Body.assigns]
-  | .cons (.assign n) t => by
-    by_cases h : n ∈ D
-    · simp [Body.cleanGo, Body.assigns, h, assigns_cleanGo m D t]
-    · simp [Body.cleanGo, Body.assigns, h, assigns_cleanGo m D t]
-  | .cons (.read x) t => by simp [Body.cleanGo, Body.assigns, Stmt.cleanS, assigns_cleanGo m D t]
-  | .cons (.scope b) t => by simp [Body.cleanGo, Body.assigns, Stmt.cleanS, assigns_cleanGo m D t]
+/-- an assignment of a name that is not dead stays -/
+theorem mem_assigns_cleanGo (m : Mode) (g : Bool) (D : List String) (y : String) (hy : y ∉ D) :
+    ∀ t : Body, y ∈ t.assigns → y ∈ (t.cleanGo m g D).assigns
+  | .nil, h => by simp [Body.assigns] at h
+  | .cons (.assign n e) t, h => by
+    simp only [Body.assigns, List.mem_cons] at h
+    simp only [Body.cleanGo]
+    split
+    · rename_i hd
+      rcases h with h | h
+      · exact absurd (h ▸ hd.1) hy
+      · exact mem_assigns_cleanGo m g D y hy t h
+    · simp only [Body.assigns, List.mem_cons]
+      rcases h with h | h
+      · exact Or.inl h
+      · exact Or.inr (mem_assigns_cleanGo m g D y hy t h)
+  | .cons (.read x) t, h => by
+    simp only [Body.assigns] at h
+    simpa [Body.cleanGo, Body.assigns, Stmt.cleanS] using mem_assigns_cleanGo m g D y hy t h
+  | .cons (.scope b) t, h => by
+    simp only [Body.assigns] at h
+    simpa [Body.cleanGo, Body.assigns, Stmt.cleanS] using mem_assigns_cleanGo m g D y hy t h
+
+/-- what is no longer assigned after the pass was dead -/
+theorem dead_of_not_mem_cleanGo (m : Mode) (g : Bool) (D : List String) (t : Body) (y : String)
+    (hy : y ∈ t.assigns) (hn : y ∉ (t.cleanGo m g D).assigns) : y ∈ D :=
+  Classical.byContradiction fun h => hn (mem_assigns_cleanGo m g D y h t hy)
 
 /-- a way of deciding "unused" is *sound* when what it calls dead has no reference under Python's rule -/
 def Sound (m : Mode) : Prop := ∀ (b : Body) (y : String), y ∈ b.dead m → b.refs y = 0
 
 mutual
-theorem unresolved_cleanGo (m : Mode) (hm : Sound m) (D : List String) (Bo Bn : List String) :
+theorem unresolved_cleanGo (m : Mode) (g : Bool) (hm : Sound m) (D : List String) (Bo Bn : List String) :
     ∀ t : Body, (∀ y ∈ Bo, y ∉ Bn → t.refs y = 0) →
-      ∀ x ∈ (t.cleanGo m D).unresolvedGo Bn, x ∈ t.unresolvedGo Bo
+      ∀ x ∈ (t.cleanGo m g D).unresolvedGo Bn, x ∈ t.unresolvedGo Bo
   | .nil, _, x, hx => by simp [Body.cleanGo, Body.unresolvedGo] at hx
   | .cons s t, h, x, hx => by
     have hs : ∀ y ∈ Bo, y ∉ Bn → s.refs y = 0 := fun y hy hn => by
@@ -34,27 +52,27 @@ theorem unresolved_cleanGo (m : Mode) (hm : Sound m) (D : List String) (Bo Bn : 
     have ht : ∀ y ∈ Bo, y ∉ Bn → t.refs y = 0 := fun y hy hn => by
       have := h y hy hn; simp only [Body.refs] at this; omega
     cases s with
-    | assign n =>
-      by_cases hn : n ∈ D
-      · simp only [Body.cleanGo, hn, if_true] at hx
+    | assign n e =>
+      by_cases hn : n ∈ D ∧ ¬(g = true ∧ e = true)
+      · simp only [Body.cleanGo, hn] at hx
         simp only [Body.unresolvedGo, Stmt.unresolvedGo, List.nil_append]
-        exact unresolved_cleanGo m hm D Bo Bn t ht x hx
+        exact unresolved_cleanGo m g hm D Bo Bn t ht x hx
       · simp only [Body.cleanGo, hn, if_false, Body.unresolvedGo, Stmt.unresolvedGo, List.nil_append] at hx ⊢
-        exact unresolved_cleanGo m hm D Bo Bn t ht x hx
+        exact unresolved_cleanGo m g hm D Bo Bn t ht x hx
     | read r =>
       simp only [Body.cleanGo, Body.unresolvedGo, List.mem_append] at hx ⊢
       rcases hx with hx | hx
-      · exact Or.inl (unresolved_cleanS m hm Bo Bn (.read r) hs x hx)
-      · exact Or.inr (unresolved_cleanGo m hm D Bo Bn t ht x hx)
+      · exact Or.inl (unresolved_cleanS m g hm Bo Bn (.read r) hs x hx)
+      · exact Or.inr (unresolved_cleanGo m g hm D Bo Bn t ht x hx)
     | scope b =>
       simp only [Body.cleanGo, Body.unresolvedGo, List.mem_append] at hx ⊢
       rcases hx with hx | hx
-      · exact Or.inl (unresolved_cleanS m hm Bo Bn (.scope b) hs x hx)
-      · exact Or.inr (unresolved_cleanGo m hm D Bo Bn t ht x hx)
-theorem unresolved_cleanS (m : Mode) (hm : Sound m) (Bo Bn : List String) :
+      · exact Or.inl (unresolved_cleanS m g hm Bo Bn (.scope b) hs x hx)
+      · exact Or.inr (unresolved_cleanGo m g hm D Bo Bn t ht x hx)
+theorem unresolved_cleanS (m : Mode) (g : Bool) (hm : Sound m) (Bo Bn : List String) :
     ∀ s : Stmt, (∀ y ∈ Bo, y ∉ Bn → s.refs y = 0) →
-      ∀ x ∈ (s.cleanS m).unresolvedGo Bn, x ∈ s.unresolvedGo Bo
-  | .assign n, _, x, hx => by simp [Stmt.cleanS, Stmt.unresolvedGo] at hx
+      ∀ x ∈ (s.cleanS m g).unresolvedGo Bn, x ∈ s.unresolvedGo Bo
+  | .assign n e, _, x, hx => by simp [Stmt.cleanS, Stmt.unresolvedGo] at hx
   | .read r, h, x, hx => by
     simp only [Stmt.cleanS, Stmt.unresolvedGo] at hx ⊢
     by_cases hr : r ∈ Bn
@@ -66,12 +84,11 @@ theorem unresolved_cleanS (m : Mode) (hm : Sound m) (Bo Bn : List String) :
       · simp [hb]
   | .scope b, h, x, hx => by
     simp only [Stmt.cleanS, Stmt.unresolvedGo] at hx ⊢
-    refine unresolved_cleanGo m hm (b.dead m) (b.assigns ++ Bo) ((b.cleanGo m (b.dead m)).assigns ++ Bn) b ?_ x hx
+    refine unresolved_cleanGo m g hm (b.dead m) (b.assigns ++ Bo) ((b.cleanGo m g (b.dead m)).assigns ++ Bn) b ?_ x hx
     intro y hy hn
-    rw [assigns_cleanGo] at hn
-    simp only [List.mem_append, List.mem_filter, Bool.not_eq_true', decide_eq_false_iff_not, not_or, not_and, Classical.not_not] at hy hn
+    simp only [List.mem_append, not_or] at hy hn
     by_cases hya : y ∈ b.assigns
-    · exact hm b y (hn.1 hya)
+    · exact hm b y (dead_of_not_mem_cleanGo m g _ b y hya hn.1)
     · rcases hy with hy | hy
       · exact absurd hy hya
       · have := h y hy hn.2
@@ -79,16 +96,15 @@ theorem unresolved_cleanS (m : Mode) (hm : Sound m) (Bo Bn : List String) :
 end
 
 /-- for every sound way of deciding "unused", the pass leaves no name unresolved that was resolved before -/
-theorem clean_scope_safe (m : Mode) (hm : Sound m) (outer : List String) (b : Body) :
-    ∀ x ∈ (b.clean m).unresolved outer, x ∈ b.unresolved outer := by
+theorem clean_scope_safe (m : Mode) (hm : Sound m) (outer : List String) (b : Body) (g : Bool := true) :
+    ∀ x ∈ (b.clean m g).unresolved outer, x ∈ b.unresolved outer := by
   intro x hx
   unfold Body.unresolved Body.clean at *
-  refine unresolved_cleanGo m hm (b.dead m) _ _ b ?_ x hx
+  refine unresolved_cleanGo m g hm (b.dead m) _ _ b ?_ x hx
   intro y hy hn
-  rw [assigns_cleanGo] at hn
-  simp only [List.mem_append, List.mem_filter, Bool.not_eq_true', decide_eq_false_iff_not, not_or, not_and, Classical.not_not] at hy hn
+  simp only [List.mem_append, not_or] at hy hn
   rcases hy with hy | hy
-  · exact hm b y (hn.1 hy)
+  · exact hm b y (dead_of_not_mem_cleanGo m g _ b y hy hn.1)
   · exact absurd hy hn.2
 
 theorem sound_python : Sound .python := by
@@ -98,7 +114,7 @@ mutual
 /-- Python's references are among what libcst attributes -/
 theorem refs_le_libcst (n : String) : ∀ b : Body, b.refs n ≤ b.ownReads n + b.nestedL n
   | .nil => by simp [Body.refs, Body.ownReads, Body.nestedL]
-  | .cons (.assign a) t => by
+  | .cons (.assign a e) t => by
     have := refs_le_libcst n t
     simp only [Body.refs, Stmt.refs, Body.ownReads, Body.nestedL, Stmt.nestedL]; omega
   | .cons (.read r) t => by
@@ -131,12 +147,43 @@ theorem C02_clean_scope_safe_python (outer : List String) (b : Body) :
 /-- **the code before the fix.** `tag = "a"` / `g = lambda: tag`: no read of `tag` at the level of the
 assignment, so it was removed, and the lambda's `tag` is unbound. -/
 theorem C02_clean_old_unbinds_closure_read :
-    let b : Body := .cons (.assign "tag") (.cons (.scope (.cons (.read "tag") .nil)) .nil)
+    let b : Body := .cons (.assign "tag" false) (.cons (.scope (.cons (.read "tag") .nil)) .nil)
     b.unresolved [] = [] ∧ (b.clean .ownOnly).unresolved [] = ["tag"] ∧ (b.clean .libcst).unresolved [] = [] := by
   decide
 
+/-! ## effects (C08): a right-hand side that may have an effect is never removed -/
+
+mutual
+theorem effects_cleanGo (m : Mode) (D : List String) : ∀ t : Body, (t.cleanGo m true D).effects = t.effects
+  | .nil => by simp [Body.cleanGo]
+  | .cons (.assign n e) t => by
+    have ih := effects_cleanGo m D t
+    cases e <;> by_cases hn : n ∈ D <;> simp [Body.cleanGo, Body.effects, Stmt.effects, hn, ih]
+  | .cons (.read x) t => by
+    simp [Body.cleanGo, Body.effects, Stmt.effects, Stmt.cleanS, effects_cleanGo m D t]
+  | .cons (.scope b) t => by
+    simp [Body.cleanGo, Body.effects, effects_cleanS m (.scope b), effects_cleanGo m D t]
+theorem effects_cleanS (m : Mode) : ∀ s : Stmt, (s.cleanS m true).effects = s.effects
+  | .assign n e => by simp [Stmt.cleanS]
+  | .read x => by simp [Stmt.cleanS]
+  | .scope b => by simp [Stmt.cleanS, Stmt.effects, effects_cleanGo m (b.dead m) b]
+end
+
+/-- **C08 (the clean-up pass as the code is now).** Every right-hand side that may have an effect is
+still there after the pass, in the same order — whatever the pass considers unused. -/
+theorem C08_clean_keeps_effects (m : Mode) (b : Body) : (b.clean m).effects = b.effects :=
+  effects_cleanGo m (b.dead m) b
+
+/-- **the code before the fix.** `status = log("...")` with `status` never read: the assignment was
+removed together with the call. -/
+theorem C08_clean_old_drops_effect :
+    let b : Body := .cons (.assign "status" true) (.cons (.assign "pad" false) .nil)
+    b.effects = ["status"] ∧ (b.clean .libcst false).effects = [] ∧
+    b.clean .libcst = .cons (.assign "status" true) .nil := by
+  exact ⟨by decide, by decide, rfl⟩
+
 -- non-vacuity: something is removed by the pass as it is now, and what a closure reads stays
-example : (Body.cons (.assign "u") (.cons (.assign "tag") (.cons (.scope (.cons (.read "tag") .nil)) .nil))).clean .libcst
-    = .cons (.assign "tag") (.cons (.scope (.cons (.read "tag") .nil)) .nil) := by rfl
+example : (Body.cons (.assign "u" false) (.cons (.assign "tag" false) (.cons (.scope (.cons (.read "tag") .nil)) .nil))).clean .libcst
+    = .cons (.assign "tag" false) (.cons (.scope (.cons (.read "tag") .nil)) .nil) := by rfl
 
 end CM.Scope
